@@ -57,6 +57,11 @@ def build(V, F, visual):
     m = trimesh.Trimesh(vertices=V.copy(), faces=F.copy(), process=False)
     if visual == "face":
         m.visual.face_colors = np.array([fcol(t) for t in range(len(F))], dtype=np.uint8)
+    elif visual == "face_painted":
+        # the default colour array is read and painted in place (never assigned)
+        c = m.visual.face_colors
+        if len(F):
+            c[:] = np.array([fcol(t) for t in range(len(F))], dtype=np.uint8)
     elif visual == "vertex":
         m.visual.vertex_colors = np.array([vcol(u) for u in range(len(V))], dtype=np.uint8)
     elif visual == "texture":
@@ -69,7 +74,7 @@ def build(V, F, visual):
 
 
 def face_tags(m, visual, use_attr):
-    if visual == "face" and m.visual.kind == "face":
+    if visual in ("face", "face_painted") and m.visual.kind == "face":
         c = np.asarray(m.visual.face_colors)
         return (c[:, 0].astype(int) - 10) if len(c) else np.array([], dtype=int)
     if use_attr and "tag" in m.face_attributes and len(m.face_attributes["tag"]) == len(m.faces):
@@ -110,7 +115,7 @@ def check_result(t, V0, F0, visual, n, key, case, tol=0.0, use_attr=True, expect
 
     if len(F1) and (F1.max() >= len(V1) or F1.min() < 0):
         return bad("faces index a vertex that does not exist", {"faces": F1, "n_vertices": len(V1)})
-    if visual == "face" and len(F1):
+    if visual in ("face", "face_painted") and len(F1):
         # the colours the result reports for its faces must still be the colours of those faces, whatever
         # representation the visual switched to internally (a per-face value must not come back averaged)
         try:
@@ -355,7 +360,7 @@ def run_ops(t, V, F, visual, cfg, tier):
             F1 = np.asarray(cat.faces)
             if len(F1) != 2 * nf or not eq_pos(np.asarray(cat.vertices)[F1], V2[F2], 0):
                 t.violation(f"concatenate: triangles differ from the two inputs stacked [{cc}]", case, {})
-            elif visual == "face" and cat.visual.kind == "face":
+            elif visual in ("face", "face_painted") and cat.visual.kind == "face":
                 c = np.asarray(cat.visual.face_colors)
                 if c[:, 0].tolist() != [10 + i for i in range(nf)] * 2:
                     t.violation(f"concatenate: face colours are attached to different faces [{cc}]", case, {"got": c[:, 0].tolist()})
@@ -445,7 +450,7 @@ def tasks_for(tier):
     tasks = []
     cfgs = list(vertex_configs())
     for cfg in cfgs:
-        for visual in ("face", "vertex", "texture"):
+        for visual in ("face", "vertex", "texture", "face_painted"):
             tasks.append((cfg, visual, 1, 0, 1, tier))
             nsl = 64 if tier == "thorough" else 4
             for sl in range(nsl):
